@@ -18,6 +18,7 @@ CONSTANTS Engine,      \* "sync" | "async"
           FaultPairs,  \* TRUE: fault sets of two actions as well
           PropSet,     \* ids of the Prop predicates to evaluate on every edge
           WithBatch,   \* TRUE: also explore send_events([e1, e2]) for every pair of relevant events
+          WithLifecycle, \* TRUE: also explore stop() and repeated start() from every state
           WithFaults,  \* TRUE: also explore every step with one of its user actions raising
           WithBurst,   \* TRUE: also explore send_events of maxIterations+2 copies of each relevant event
           MaxStates    \* quick tier: stop expanding once this many distinct states were found
@@ -111,7 +112,15 @@ FaultyStart == /\ WithFaults /\ Usable /\ status = "uninitialized"
                            Apply(StartStep([Pack EXCEPT !.faults = F], gv, Engine),
                                  [op |-> "start", ev |-> "", gv |-> gv, faults |-> F])
 
-Next == Start \/ Send \/ Can \/ Batch \/ BatchN \/ FaultySend \/ FaultyStart
+Stop == /\ WithLifecycle /\ Engine # "pure" /\ ~dirty
+        /\ Apply(StopStep(Pack), [op |-> "stop", ev |-> "", gv |-> <<>>])
+Restart == /\ WithLifecycle /\ Engine # "pure" /\ ~dirty /\ status # "uninitialized"
+           /\ Apply(RestartStep(Pack), [op |-> "start", ev |-> "", gv |-> <<>>])
+\* with lifecycle exploration sends are also tried on done / failed / stopped interpreters
+SendAfterEnd == /\ WithLifecycle /\ ~dirty /\ status \in {"done", "error", "stopped"}
+                /\ \E ev \in D.events : Apply(SendStep(PackSend, ev, <<>>, Engine), [op |-> "send", ev |-> ev, gv |-> <<>>])
+
+Next == Start \/ Send \/ Can \/ Batch \/ BatchN \/ FaultySend \/ FaultyStart \/ Stop \/ Restart \/ SendAfterEnd
 Spec == Init /\ [][Next]_vars
 
 \* breadth-first prefix of the state graph when the bound bites (evidence: exhaustive = false)
@@ -175,7 +184,8 @@ Props == [C01 |-> On("C01", C01(PreS, lastStep', PostS, out')),
           C06 |-> On("C06", C06(PreS, lastStep', PostS, out')),
           C20 |-> On("C20", C20(PreS, lastStep', PostS, out')),
           C13 |-> On("C13", C13(PreS, lastStep', PostS, out')),
-          C07 |-> On("C07", C07Spec(lastStep', PostS, out'))]
+          C07 |-> On("C07", C07Spec(lastStep', PostS, out')),
+          C14 |-> On("C14", C14(PreS, lastStep', PostS, out'))]
 
 Emit == PrintT(ToJson([mi |-> mi, from |-> PreS, step |-> lastStep', to |-> PostS, dirty |-> dirty',
                        out |-> out', prop |-> Props]))
